@@ -209,7 +209,15 @@ def module_candidates(rel: str) -> str:
     return p.parent.name if p.name == "__init__.py" else p.stem
 
 
-def check_stats_text(text: str, modules: list[str] | None) -> list[str]:
+def dotted_module(rel: str) -> str:
+    """the module name of a checked file given by a path below the working directory (refurb runs mypy with
+    --explicit-package-bases --namespace-packages: the name is the path, whether or not there are __init__.py files)"""
+    p = Path(rel)
+    parts = list(p.parent.parts) + ([] if p.name == "__init__.py" else [p.stem])
+    return ".".join(x for x in parts if x not in (".", ""))
+
+
+def check_stats_text(text: str, modules: list[str] | None, exact: list[str] | None = None) -> list[str]:
     """property-level requirements on the content of FILE; returns the list of defects"""
     defects: list[str] = []
     try:
@@ -245,6 +253,8 @@ def check_stats_text(text: str, modules: list[str] | None) -> list[str]:
                 defects.append(f"no entry for checked module {m!r} in {KEYS[2]} (keys: {ks[:8]})")
         if len(ks) != len(modules):
             defects.append(f"{KEYS[2]} has {len(ks)} entries for {len(modules)} checked modules")
+        if exact is not None and sorted(ks) != sorted(exact):
+            defects.append(f"{KEYS[2]} is keyed by {sorted(ks)[:8]}, the checked modules are {sorted(exact)[:8]}")
     return defects
 
 
@@ -314,7 +324,8 @@ def cli_case(root: Path, scenario: str, spec: tuple[list[str], list[str], str | 
                     stats_state = "untouched"
                 else:
                     stats_state = "written"
-                    problems = check_stats_text(text, [module_candidates(c) for c in checked] if reaches else None)
+                    problems = check_stats_text(text, [module_candidates(c) for c in checked] if reaches else None,
+                                                [dotted_module(c) for c in checked] if reaches and not outside else None)
                     for pr in problems:
                         defects.append({"kind": "stats-file-malformed", "label": label, "defect": pr, "text_head": text[:300]})
         runs.append({"rc": rc, "stdout": out[-400:], "stderr": err[-600:], "stats": stats_state, "traceback": "Traceback" in err})
